@@ -272,6 +272,15 @@ def oracle_frozen(c, ctx):
     seed = int(c["seed"])
     if k == "normal":
         dist = D.Normal(jnp.arange(dim) * 0.5, 1.0 + 0.3 * jnp.arange(dim))
+    elif k == "nested_chains":  # whole Chains frozen with NonTrainable, nested in Chains / nested Transformed distributions
+        bits = list(c["bits"])
+        wrap = lambda on, b: W.NonTrainable(b) if on else b  # noqa: E731
+        inner1 = B.Chain([B.Affine(jnp.arange(dim) * 0.3, 1.0 + 0.1 * jnp.arange(dim)), B.Loc(jnp.full(dim, 0.2))])
+        inner2 = B.Chain([B.Loc(jnp.full(dim, -0.4)), B.Scale(jnp.full(dim, 1.3))])
+        dist = D.Transformed(D.Transformed(D.Normal(jnp.zeros(dim), jnp.ones(dim)), inner1),
+                             B.Chain([B.Scale(jnp.full(dim, 0.8)), wrap(bits[1] or not bits[0], inner2), B.Loc(jnp.full(dim, 0.1))]))
+        if bits[0] or not bits[1]:  # (a wholly wrapped bijection exposes no attributes, so it is wrapped after construction: documented)
+            dist = eqx.tree_at(lambda d: d.base_dist.bijection, dist, replace_fn=W.NonTrainable)
     elif k == "studentt_base_flow":
         dist = bd.build_flow({"factory": "masked_autoregressive_flow", "dim": dim, "cond_dim": None, "invert": True, "layers": 1,
                               "key": seed, "width": 3}, base=D.StudentT(jnp.full(dim, 4.0)))
@@ -283,7 +292,22 @@ def oracle_frozen(c, ctx):
         ctx.inconcl("bnaf_direction_without_reverse_mode_gradient")  # documented asymmetry (DESIGN F6)
         return
     dist = bd.perturb(dist, 0.2, seed)
-    dist = freeze(dist, c["freeze"], c["bits"])
+    if k != "nested_chains":
+        dist = freeze(dist, c["freeze"], c["bits"])
+    # restructuring operations that "never change the function" (C08) must not un-freeze anything either: every array
+    # that was frozen before is still frozen, bit-identical, afterwards - and the training clauses below run on the result
+    rs = c.get("restructure")
+    if rs and isinstance(dist, D.AbstractTransformed):
+        before = sorted(a.tobytes() for a in frozen_arrays(dist))
+        if rs == "merge_transforms":
+            dist = lib_call("C12|frozen|merge_transforms", dist.merge_transforms)
+        elif isinstance(dist.bijection, B.Chain):
+            dist = eqx.tree_at(lambda d: d.bijection, dist, lib_call("C12|frozen|merge_chains", dist.bijection.merge_chains))
+        after = sorted(a.tobytes() for a in frozen_arrays(dist))
+        if before != after:
+            raise Violation(f"C12|frozen|marker_lost_by|{rs}", f"{k}: {len(before)} frozen arrays before {rs}, {len(after)} after "
+                                                              f"(or their values changed)")
+        ctx.hist("restructured", f"{k}/{rs}")
     dim = W.unwrap(dist).shape[0]  # (attributes of a wholly wrapped sub-tree are only reachable after unwrap: documented)
     who = f"{k}|freeze={c['freeze']}"
     x = jr.normal(jr.PRNGKey(seed + 1), (8, dim)) * 0.7
@@ -377,7 +401,8 @@ def expr_cases(draw):
 def frozen_cases(draw):
     return {"what": "frozen", "model": draw(st.sampled_from(["normal", "coupling_flow", "masked_autoregressive_flow", "planar_flow",
                                                             "triangular_spline_flow", "block_neural_autoregressive_flow",
-                                                            "studentt_base_flow"])),
+                                                            "studentt_base_flow", "nested_chains", "nested_chains"])),
+            "restructure": draw(st.sampled_from([None, "merge_transforms", "merge_chains"])),
             "dim": draw(st.integers(1, 3)), "invert": draw(st.booleans()), "seed": draw(st.integers(0, 999)),
             "freeze": draw(st.sampled_from(["subset", "subset", "base", "base_leaves", "bijection", "all"])),
             "bits": draw(st.lists(st.booleans(), min_size=5, max_size=5)),
